@@ -544,6 +544,7 @@ class MPBFixedContext(SizedContext):
             return Float(s=xr.s and self.enable_neg_zero, ctx=self)
 
         # step 3. round value based on rounding parameters
+        operand = xr
         xr = xr.round(min_n=n, rm=self.rm, num_randbits=self.num_randbits, rng=self.rng, exact=exact)
 
         # step 4. check for overflow
@@ -553,7 +554,15 @@ class MPBFixedContext(SizedContext):
 
             match self.overflow:
                 case OverflowMode.OVERFLOW:
-                    if self._overflow_to_infinity(xr.s):
+                    to_infinity = self._overflow_to_infinity(xr.s)
+                    if self.num_randbits != 0 and not self._is_overflowing(
+                        operand.round(min_n=n, rm=RoundingMode.RTZ)
+                    ):
+                        # the operand lies in the gap above the largest value,
+                        # whose other end is the infinity: a draw that rounded
+                        # away chose that end, whatever the base mode is
+                        to_infinity = True
+                    if to_infinity:
                         # an overflow that rounds to infinity is substituted
                         # like an infinite input, since neither is representable
                         if self.enable_inf:
